@@ -807,8 +807,8 @@ class Val(Contract):
         apply_mode(c, cfg["mode"])
         return c.LinComb.val, (c.operand("x"),), {}
 
-    def result(self, c, x):
-        return x.value
+    def use_stub(self, c, x):
+        return False          # two lines; executed in place so that the output wire is an explicit event of the caller
 
     def post(self, c, r, x):
         d = {"V.value": Eq(r, c.v(x))}
